@@ -168,6 +168,8 @@ def check_C02(ctx):
     for B, dn, nn in sbs:
         r = ctx.tlc_model('SbDivQr', cfg_text=cfg(consts={'B': B, 'DN': dn, 'NN': nn, 'Variant': '"ok"', 'EMITSB': 'FALSE'}), name=f'SbDivQr-B{B}-{dn}-{nn}', timeout=3000)
         ctx.model_must_hold(r, what='(schoolbook division loop)')
+    r = assume_model(ctx, 'DivRound', {'M': 40 if q else 120, 'Variant': '"ok"'}, timeout=3000)
+    ctx.model_must_hold(r, what='(floor/ceiling adjustment of the truncated quotient and remainder; _ui return values)')
     trace_drivers(ctx, [('c02_tdiv', 16, 1200), ('c02_div1', 8, 600), ('c02_mpz', 16, 900)], pure_drivers=['c02_tdiv', 'c02_div1', 'c02_mpz'])
     return ctx.finish('model_checking',
         rule='R2: UdivPreinv = every normalised two-limb divisor and every admissible three-limb numerator at word widths 3..5 bits; SbDivQr = every normalised '
